@@ -2010,6 +2010,294 @@ def stream_manykeys(R):
                    'compared with freshly constructed objects' % (ncases, total, MK_SIZES_QUICK, 2 * max(MK_SIZES_QUICK) + 50, MK_MUTS))
 
 
+# ------------------------------------------------------------------ stream `midbroadcast` (round 6): a hub client REQUESTS from inside its handler
+# A listener subscribed to the messages that are broadcast WHILE a mutation runs (ComponentsChangedMessage, DataAddComponentMessage,
+# DataRemoveComponentMessage during update_values_from_data / remove_component / add_component; NumericalDataChangedMessage at the end of
+# update_components / update_values_from_data) performs one of the request forms on every selection at that very moment, and again after the
+# mutation has returned.  Oracle, independent of every cache: "that moment" is DEFINED by what the data object exposes to the listener --
+# its main components (label -> the array get_component hands out) and its shape; a NEW Data object is constructed from exactly those
+# arrays, the selection is CONSTRUCTED anew on it, and the request is its first evaluation (inside isolated_caches).  A moment at which the
+# exposed arrays do not all have the exposed shape (update_values_from_data re-sizes one component after the other) is not a state of any
+# dataset: no comparison is made there.  Oracle only (the model's OUpdateValues places listener requests at the final broadcast).
+MB_MESSAGES = ('ComponentsChangedMessage', 'DataAddComponentMessage', 'DataRemoveComponentMessage', 'NumericalDataChangedMessage',
+               'DataUpdateMessage')
+MB_MUTS = ('uvd_drop', 'uvd_add', 'uvd_drop_add', 'uvd_same', 'update_components', 'remove_component', 'add_component', 'replace_component')
+MB_FORMS = ('subset', 'get_mask', 'to_mask', 'stat')
+MB_SPECS = [('gt', 'x', 2), ('lt', 'y', 3), ('and', ('gt', 'x', 2), ('gt', 'y', 0)), ('not', ('gt', 'x', 3)),
+            ('or', ('gt', 'x', 4), ('lt', 'y', 2)), ('multi', [('gt', 'x', 4), ('lt', 'y', 1), ('gt', 'z', 2)]),
+            ('xor', ('gt', 'x', 1), ('gt', 'z', 1)), ('and', ('not', ('lt', 'x', 2)), ('or', ('gt', 'y', 2), ('gt', 'x', 5)))]
+
+
+def mb_labels(spec, out=None):
+    out = [] if out is None else out
+    if spec[0] in ('gt', 'lt'):
+        if spec[1] not in out:
+            out.append(spec[1])
+    elif spec[0] == 'multi':
+        for c in spec[1]:
+            mb_labels(c, out)
+    else:
+        for c in spec[1:]:
+            mb_labels(c, out)
+    return out
+
+
+def mb_build(spec, cid_of):
+    from glue.core.subset import InequalitySubsetState, AndState, OrState, XorState, InvertState, MultiOrState
+    k = spec[0]
+    if k in ('gt', 'lt'):
+        return InequalitySubsetState(cid_of[spec[1]], spec[2], operator.gt if k == 'gt' else operator.lt)
+    if k == 'not':
+        return InvertState(mb_build(spec[1], cid_of))
+    if k == 'multi':
+        return MultiOrState([mb_build(c, cid_of) for c in spec[1]])
+    return {'and': AndState, 'or': OrState, 'xor': XorState}[k](mb_build(spec[1], cid_of), mb_build(spec[2], cid_of))
+
+
+def mb_values(seed, i, salt, label, shape):
+    rs = np.random.RandomState((seed * 7919 + i * 104729 + salt * 1299709 + sum(map(ord, label)) * 15485863) % (2 ** 31))
+    return rs.randint(0, 7, size=shape)
+
+
+def mb_params(seed, i, override=None):
+    if override is not None:
+        return override
+    rs = np.random.RandomState((seed * 31337 + i * 2654435761 + 17) % (2 ** 31))
+    nsel = int(rs.randint(1, 4))
+    shapes = [(4,), (6,), (5,), (2, 3), (3, 2)]
+    shape = shapes[int(rs.randint(0, len(shapes)))]
+    nm = int(rs.randint(1, 4))
+    msgs = [m for m in MB_MESSAGES if rs.rand() < 0.6] or [MB_MESSAGES[int(rs.randint(0, 3))]]
+    return {'shape': list(shape), 'sel': [int(x) for x in rs.choice(len(MB_SPECS), size=nsel, replace=False)],
+            'attached': [bool(rs.rand() < 0.6) for _ in range(nsel)], 'msgs': msgs,
+            'form': MB_FORMS[int(rs.randint(0, 4))], 'pre': bool(rs.rand() < 0.8),
+            'muts': [[MB_MUTS[int(rs.randint(0, len(MB_MUTS)))], int(rs.randint(1, 50)),
+                      list(shapes[int(rs.randint(0, len(shapes)))]) if rs.rand() < 0.6 else None] for _ in range(nm)]}
+
+
+def mb_snapshot(d):
+    """what the data object exposes right now: [(label, array)], shape, and whether this is a state of a dataset at all"""
+    comps = []
+    for cid in d.main_components:
+        comps.append((cid.label, np.array(d.get_component(cid).data, copy=True)))
+    shape = tuple(d.shape)
+    labels = [l for l, _ in comps]
+    ok = all(a.shape == shape for _, a in comps) and len(set(labels)) == len(labels) and len(comps) > 0
+    return comps, shape, ok
+
+
+def mb_request(d, state, subset, cid, form):
+    if form == 'subset' and subset is not None:
+        return outcome(subset.to_mask)
+    if form == 'to_mask':
+        return outcome(lambda: state.to_mask(d))
+    if form == 'stat':
+        return outcome(lambda: d.compute_statistic('sum', cid, subset_state=state))
+    return outcome(lambda: d.get_mask(state))
+
+
+def mb_fresh(snap, spec, form, attached):
+    from glue.core import Data
+    comps, shape, _ = snap
+    labels = [l for l, _ in comps]
+    if any(l not in labels for l in mb_labels(spec)):
+        return ('err', 'IncompatibleAttribute')
+    with isolated_caches():
+        f = Data(label='d')
+        for l, a in comps:
+            f.add_component(a, l)
+        cid_of = {c.label: c for c in f.main_components}
+        st = mb_build(spec, cid_of)
+        sub = None
+        if attached and form == 'subset':
+            sub = f.new_subset()
+            sub.subset_state = st
+        return mb_request(f, st, sub, cid_of[mb_labels(spec)[0]], form)
+
+
+def mb_history(seed, i, p):
+    """returns (first oracle failure or None, number of comparisons made, number made from inside a handler, distinct message kinds seen)"""
+    from glue.core import Data, DataCollection
+    from glue.core.hub import HubListener
+    from glue.core import message as M
+    shape = tuple(p['shape'])
+    d = Data(label='d')
+    for l in ('x', 'y', 'z'):
+        d.add_component(mb_values(seed, i, 0, l, shape), l)
+    dc = DataCollection([d])
+    cid_of = {c.label: c for c in d.main_components}
+    sels = []
+    for k, att in zip(p['sel'], p['attached']):
+        spec = MB_SPECS[k]
+        st = mb_build(spec, cid_of)
+        sub = None
+        if att:
+            sub = dc.new_subset_group(subset_state=st).subsets[0]
+            st = sub.subset_state
+        sels.append((spec, st, sub, cid_of[mb_labels(spec)[0]], att))
+    bad = []
+    stats = {'n': 0, 'inside': 0, 'kinds': set(), 'skipped': 0}
+
+    prev = {}
+    known = []
+
+    def same_snap(a, b):
+        return a[1] == b[1] and [l for l, _ in a[0]] == [l for l, _ in b[0]] and all(np.array_equal(x, y) for (_, x), (_, y) in zip(a[0], b[0]))
+
+    def compare(where, window=None):
+        snap = mb_snapshot(d)
+        if not snap[2]:
+            stats['skipped'] += 1
+            return
+        for j, (spec, st, sub, cid, att) in enumerate(sels):
+            live = mb_request(d, st, sub, cid, p['form'])
+            fresh = mb_fresh(snap, spec, p['form'], att)
+            stats['n'] += 1
+            before = prev.get(j)
+            prev[j] = live
+            if not same_outcome(live, fresh):
+                # the known finding `update-values-callee-broadcast`, and nothing else: inside the handler of a message other than the final
+                # NumericalDataChangedMessage, during update_values_from_data, at a moment at which the values / shape of an attribute that
+                # is kept have ALREADY been replaced (the exposed state differs from the one at the start of the call in more than the
+                # removed attributes), and the live result is the one returned before (or numpy refuses the old mask on the new shape)
+                if (window is not None and before is not None and (live[0] == 'err' or p['form'] == 'stat' or same_outcome(live, before))):   # stat: the OLD mask applied to the NEW values, not a value seen before
+                    start = window
+                    kept = [l for l, _ in snap[0] if l in [m for m, _ in start[0]]]
+                    a0 = dict(start[0])
+                    a1 = dict(snap[0])
+                    replaced = snap[1] != start[1] or any(not np.array_equal(a0[l], a1[l]) for l in kept)
+                    if replaced:
+                        if not known:
+                            known.append({'where': where, 'selection': j, 'spec': repr(spec), 'form': p['form'], 'live': show(live), 'fresh': show(fresh)})
+                        continue
+                if bad:
+                    continue
+                bad.append({'where': where, 'selection': j, 'spec': repr(spec), 'form': p['form'], 'live': show(live), 'fresh': show(fresh),
+                            'exposed': {l: a.tolist() for l, a in snap[0]}, 'exposed_shape': list(snap[1])})
+
+    cur = {'mut': None, 'start': None}
+
+    class Client(HubListener):
+        def __init__(self, hub):
+            for m in p['msgs']:
+                hub.subscribe(self, getattr(M, m), handler=self.on)
+
+        def on(self, msg):
+            if getattr(msg, 'sender', None) is not d and getattr(msg, 'data', None) is not d:
+                return
+            stats['inside'] += 1
+            stats['kinds'].add(type(msg).__name__)
+            window = cur['start'] if (cur['mut'] and '(uvd' in cur['mut'] and type(msg).__name__ != 'NumericalDataChangedMessage') else None
+            compare('inside the handler of %s during %s' % (type(msg).__name__, cur['mut']), window)
+
+    client = Client(dc.hub)
+    if p['pre']:
+        compare('before any mutation')
+    for t, (kind, salt, newshape) in enumerate(p['muts']):
+        cur['mut'] = 'mutation %d (%s)' % (t, kind)
+        cur['start'] = mb_snapshot(d)
+        shp = tuple(newshape) if newshape else tuple(d.shape)
+        present = [c.label for c in d.main_components]
+        try:
+            if kind.startswith('uvd'):
+                labels = list(present)
+                if kind in ('uvd_drop', 'uvd_drop_add'):
+                    drop = [l for l in ('z', 'y', 'x') if l in labels][:1] if salt % 3 else [l for l in labels if l not in ('x', 'y')][:1]
+                    labels = [l for l in labels if l not in drop] or labels
+                if kind in ('uvd_add', 'uvd_drop_add'):
+                    labels.append('w%d' % salt)
+                nd = Data(label='d')
+                for l in labels:
+                    nd.add_component(mb_values(seed, i, salt, l, shp), l)
+                d.update_values_from_data(nd)
+            elif kind == 'update_components':
+                tgt = [c for c in d.main_components][: 1 + salt % 2]
+                d.update_components({c: mb_values(seed, i, salt, c.label, tuple(d.shape)) for c in tgt})
+            elif kind == 'remove_component':
+                tgt = [c for c in d.main_components if c.label == ('z', 'y', 'x')[salt % 3]]
+                if tgt and len(present) > 1:
+                    d.remove_component(tgt[0])
+            elif kind == 'add_component':
+                d.add_component(mb_values(seed, i, salt, 'w', tuple(d.shape)), 'w%d' % salt)
+            elif kind == 'replace_component':
+                c = [c for c in d.main_components][salt % len(present)]
+                d.add_component(mb_values(seed, i, salt, c.label, tuple(d.shape)), c)
+        except Exception as e:          # a mutation glue refuses is refused on both sides: nothing to compare
+            stats['refused'] = type(e).__name__
+        cur['mut'] = None
+        compare('after mutation %d (%s) has returned' % (t, kind))
+    dc.hub.unsubscribe_all(client)
+    stats['known'] = known[0] if known else None
+    return (bad[0] if bad else None), stats
+
+
+def mb_shrink(seed, i, p):
+    """greedy: fewer mutations, selections, messages, no read before"""
+    best = dict(p)
+    bad0, _ = mb_history(seed, i, best)
+    changed = True
+    while changed:
+        changed = False
+        cands = []
+        for t in range(len(best['muts'])):
+            if len(best['muts']) > 1:
+                cands.append(dict(best, muts=best['muts'][:t] + best['muts'][t + 1:]))
+        for j in range(len(best['sel'])):
+            if len(best['sel']) > 1:
+                cands.append(dict(best, sel=best['sel'][:j] + best['sel'][j + 1:], attached=best['attached'][:j] + best['attached'][j + 1:]))
+        for m in best['msgs']:
+            if len(best['msgs']) > 1:
+                cands.append(dict(best, msgs=[x for x in best['msgs'] if x != m]))
+        if best['pre']:
+            cands.append(dict(best, pre=False))
+        for q in cands:
+            b, _ = mb_history(seed, i, q)
+            if b:
+                best, bad0, changed = q, b, True
+                break
+    return best, bad0
+
+
+def stream_midbroadcast(R):
+    ncases = R.pick(500, 4000)
+    nbad = nknown = 0
+    total = inside = 0
+    kinds = set()
+    fixed = []
+    # a fixed part: every mutation kind x every request form x {listener on the component messages, on the final message} on the world of
+    # the seeded demo (x > 2 attached, (x > 2) & (y > 0) attached), read before
+    for kind in MB_MUTS:
+        for form in MB_FORMS:
+            for msgs in (['ComponentsChangedMessage'], ['DataRemoveComponentMessage', 'DataAddComponentMessage'], ['NumericalDataChangedMessage']):
+                fixed.append({'shape': [4], 'sel': [0, 2], 'attached': [True, True], 'msgs': msgs, 'form': form, 'pre': True,
+                              'muts': [[kind, 1 + len(fixed), [6]]]})
+    for i in range(ncases):
+        p = fixed[i] if i < len(fixed) else mb_params(R.seed, i)
+        bad, st = mb_history(R.seed, i, p)
+        total += st['n']
+        inside += st['inside']
+        kinds |= st['kinds']
+        R.count(('midbroadcast', R.seed, i) if i >= len(fixed) else ('midbroadcast', 'fixed', i), nontrivial=st['inside'] > 0, stream='midbroadcast',
+                mb_form=p['form'], mb_mut=p['muts'][0][0], mb_inside=min(st['inside'], 5))
+        if st.get('known') and not nknown:
+            nknown = 1
+            R.fail('oracle', {'stream': 'midbroadcast', 'seed': R.seed, 'i': i, 'params': p}, st['known'], key='update-values-callee-broadcast')
+        if bad and nbad < 3:
+            nbad += 1
+            q, bad2 = mb_shrink(R.seed, i, p) if nbad == 1 else (p, None)
+            R.fail('oracle', {'stream': 'midbroadcast', 'seed': R.seed, 'i': i, 'params': q}, bad2 or bad)
+        if i in (0, len(fixed)):
+            R.sample({'stream': 'midbroadcast', 'seed': R.seed, 'i': i, 'params': p})
+    C1.clear_all_caches()
+    R.stream('midbroadcast', cases=ncases, exhaustive=False,
+             bound='%d histories (%d fixed: every mutation kind %r x request form %r x 3 listener subscriptions on the world of the seeded demo; the rest seeded: 1-3 '
+                   'selections of %d shapes, attached or free, 1-3 mutations, shapes 1-d / 2-d, new shape or same), %d comparisons, %d handler invocations '
+                   '(messages seen: %s): a hub client requests every selection from INSIDE its handler, at the moment of the broadcast, and again after the '
+                   'mutation has returned; each result vs a Data object constructed from the arrays and shape the live data object exposes at that moment, the selection '
+                   'constructed anew, first evaluation; moments at which the exposed arrays do not all have the exposed shape are skipped; oracle only'
+                   % (ncases, len(fixed), MB_MUTS, MB_FORMS, len(MB_SPECS), total, inside, ', '.join(sorted(kinds))))
+
+
 # ---- the translated memoize / clear_cache (Gen_memo.memoize_wrapper ..., semantics C05.Memo) against the live decorator: histories of calls
 #      (hashable keys, an unhashable positional argument, an unhashable keyword value, the function raising), clear_cache(f), clear_cache of an
 #      undecorated function, and clear_cache on every function (what clear_mask_caches does), short ones and long ones with several hundred
@@ -2127,6 +2415,7 @@ def run(R):
     stream_profile(R)
     stream_frb(R)
     stream_manykeys(R)
+    stream_midbroadcast(R)
     stream_memoize_live(R)
     C1.clear_all_caches()
 
@@ -2170,6 +2459,10 @@ def replay(R, case):
         out['violates'] = bool(bad)
     elif case.get('stream') == 'manykeys':
         bad, _ = mk_history(case['seed'], case['i'], case['params'])
+        out['oracle'] = [bad] if bad else []
+        out['violates'] = bool(bad)
+    elif case.get('stream') == 'midbroadcast':
+        bad, _ = mb_history(case['seed'], case['i'], case['params'])
         out['oracle'] = [bad] if bad else []
         out['violates'] = bool(bad)
     else:
